@@ -28,7 +28,7 @@ PT = 'pyworkers.persistent_thread.PersistentThreadWorker'
 PP = 'pyworkers.persistent_process.PersistentProcessWorker'
 PR = 'pyworkers.persistent_remote.PersistentRemoteWorker'
 PWK = 'pyworkers.persistent.PersistentWorker'
-TRUSTED = ['C04 (proved there for thread/process, parent side for remote): wait() returns True only if the child is dead, is_alive() is truthful',
+TRUSTED = ['terminate() of the old incarnation by its contract (C04, proved there); wait() and is_alive() are no longer trusted: their C04 lemmas are obligations here (Lw)',
            'C20: <Kind>Worker._start returns only with a live child carrying a new identity, or raises',
            'T4 a dead child writes nothing more: pipes created by this call are reachable only from the new incarnation',
            common.TEXT['chan']]
@@ -279,11 +279,46 @@ def build(ex):
     lemmas.append((Contract(PWK + '._init_child', lid='L2', name='C17.L2 every incarnation starts its result counter at zero',
                             params={'self': ('const', None)}, self_class=PWK, setup=ic_setup,
                             ensures=['self._counter == 0', 'not self._stop'], raises={}, raises_only=[]), None))
-    return lemmas
+    return lemmas + truthful_lemmas(ex)
+
+
+def truthful_lemmas(ex):
+    """Lw: L1 takes wait()/is_alive() of the old incarnation through their contract ("True only if the child is dead", C04) - that is what "never abandons a
+    running child" rests on.  The wait/is_alive lemmas of the C04 cone are therefore obligations of this check too (as C02 does with C10's transport lemmas):
+    a wait() that starts answering True for a child that still runs is a violation of C17, not only of C04."""
+    from . import C04 as _c04
+    saved = (dict(ex.abs_classes), dict(ex.ext_models), dict(ex.spec_functions), dict(ex.call_hooks), dict(ex.contracts), set(ex.use_contract))
+    built = _c04.build(ex)
+    tables = (ex.abs_classes, ex.ext_models, ex.spec_functions, ex.call_hooks, ex.contracts)
+    c04_env = tuple(dict(t) for t in tables) + (set(ex.use_contract),)
+    for tgt, sv in zip(tables, saved[:5]):
+        tgt.clear()
+        tgt.update(sv)
+    ex.use_contract.clear()
+    ex.use_contract.update(saved[5])
+
+    def use_c04_env(ex_):
+        # the two cones model the same primitives differently (cost-aware child handle in C04): a C04 lemma is verified with C04's tables
+        for tgt, sv in zip((ex_.abs_classes, ex_.ext_models, ex_.spec_functions, ex_.call_hooks, ex_.contracts), c04_env[:5]):
+            tgt.clear()
+            tgt.update(sv)
+        ex_.use_contract.clear()
+        ex_.use_contract.update(c04_env[5])
+    out = []
+    for con, v in built:
+        if con.lid.startswith('Lw') or con.lid.startswith('La'):
+            con.name = 'C17.Lw[' + con.name + ']'
+            con.lid = 'Lw.' + con.lid
+            con.pre_verify = use_c04_env
+            out.append((con, v))
+    return out
 
 
 def replay(ob, repo):
     from pyvc.native import run_script
+    if 'C17.Lw[' in ob.get('lemma', ''):
+        from . import C04 as _c04
+        return _c04.replay(dict(ob, lemma=ob['lemma'].split('C17.Lw[', 1)[1]), repo)
     r = run_script('c17_native.py', {'lemma': ob['lemma'].split(' ')[0].split('.')[-1]}, repo, timeout=200)
     return bool(r.get('violates')), r
 
